@@ -195,6 +195,7 @@ type noiseFn struct {
 	// closures: parameters of a local function literal being interpreted at one of its call sites -> the arguments
 	bind         map[types.Object]ast.Expr
 	closureDepth int
+	closureRets  []*noiseState
 	closures     map[types.Object]*ast.FuncLit
 }
 
@@ -379,7 +380,14 @@ func (nf *noiseFn) transferCall(call *ast.CallExpr, st *noiseState) {
 					}
 				}
 				nf.closureDepth++
-				if r := nf.exec(lit.Body.List, st, nil); r != nil && r != st {
+				savedRets := nf.closureRets
+				nf.closureRets = nil
+				r := nf.exec(lit.Body.List, st.clone(), nil)
+				for _, rs := range nf.closureRets {
+					r = joinNoise(r, rs)
+				}
+				nf.closureRets = savedRets
+				if r != nil {
 					*st = *r
 				}
 				nf.closureDepth--
@@ -500,8 +508,8 @@ func (nf *noiseFn) transferCall(call *ast.CallExpr, st *noiseState) {
 	}
 }
 
-// closureOf returns the function literal a local is bound to, when the local is defined once, never assigned again and
-// the literal has no return statement of its own (so that its body is a plain block of the caller).
+// closureOf returns the function literal a local is bound to, when the local is defined once and never assigned again
+// (a return inside the literal ends the interpretation of the closure at its call site).
 func (nf *noiseFn) closureOf(id *ast.Ident) *ast.FuncLit {
 	o, _ := nf.info.Uses[id].(*types.Var)
 	if o == nil || nf.fd == nil || nf.fd.Body == nil {
@@ -547,17 +555,8 @@ func (nf *noiseFn) closureOf(id *ast.Ident) *ast.FuncLit {
 			}
 			return true
 		})
-		for lo, lit := range nf.closures {
+		for lo := range nf.closures {
 			plain := assigned[lo] == 1
-			ast.Inspect(lit.Body, func(x ast.Node) bool {
-				switch x.(type) {
-				case *ast.FuncLit:
-					return false
-				case *ast.ReturnStmt:
-					plain = false
-				}
-				return true
-			})
 			if !plain {
 				delete(nf.closures, lo)
 			}
@@ -643,6 +642,11 @@ func (nf *noiseFn) execStmt(s ast.Stmt, st *noiseState, scopeDecls map[types.Obj
 		return st
 	case *ast.ReturnStmt:
 		nf.calls(x, st)
+		if nf.closureDepth > 0 {
+			// the end of a closure being interpreted at its call site, not of the function
+			nf.closureRets = append(nf.closureRets, st)
+			return nil
+		}
 		nf.checkScope(st, nil, x.Pos(), "return", x)
 		return nil
 	case *ast.BlockStmt:
